@@ -7,6 +7,6 @@ def classify(prop, cls, gap, scen):
     # the recorded finding: a survivor holds >= 1 frame more of the dropped player than another survivor
     return "survivor_view_gap>=1" if gap >= 1 else cls
 def run(ctx):
-    generic_run(ctx, LABELS, extra=run_session_correspondence, plan=[("death3", lambda: F.fam_death(ctx.rng, sizes(ctx, 300, 3000), tag="d3", three=True))], known_class=classify)
+    generic_run(ctx, LABELS, extra=run_session_correspondence, plan=[("death3", lambda: F.fam_death(ctx.rng, sizes(ctx, 300, 3000), tag="d3", three=True)), ("late_packet", lambda: F.fam_late_packet(ctx.rng, sizes(ctx, 60, 600)))], known_class=classify)
 def replay(ctx, path):
     return sim_replay(ctx, path, LABELS)
